@@ -27,6 +27,10 @@ FLAVOURS['h'] = ('* For THIS change: do NOT edit SimOps.__init__ or Heap in sim.
                  'between two modules (a value produced by one anchored file and consumed by another: pin tables, name conventions, array layouts, index offsets), a loop that handles the '
                  'FIRST or LAST element differently, a condition that is right for the common case of ONE item but wrong for zero or several (one clock, one scan chain, one output, one '
                  'dataset, one CELL block), sorting / ordering / de-duplication of results, or a size computed by rounding (cdiv, multiples of 8 / 32, padding).\n')
+FLAVOURS['i'] = ('* For THIS change: think of a REALISTIC industrial flow rather than a toy input -- the change should be invisible on small tidy inputs and bite on what real designs '
+                 'bring: many items (hundreds of cells / nets / patterns / chains, arrays beyond 64 KiB, indices with several digits), realistic names (hierarchical with dots or '
+                 'slashes, escaped identifiers, bus bits, names that differ only in case or by a suffix, names that are prefixes of other names), items appearing in an unusual but '
+                 'legal ORDER or POSITION (declarations late, ports in the middle of the node list, the same item referenced twice), or real library cells with unusual pin sets.\n')
 flavour = FLAVOURS.get(variant, '')
 print(f"""You are testing how good a (hidden) verification harness is. Your job: write ONE realistic, subtle change to the Python library
 s-holst/kyupy that BREAKS the semantic property below while the library still imports and its existing test suite still passes.
